@@ -84,3 +84,15 @@ CLAIMS["C17"] = (
     "the statistic itself is the user's callable (an uninterpreted function of the segment in the theorem; exact rational mean / sum / range / first in the correspondence; NumPy mean / median / std / var / lambdas judged by the directly stated property); pandas groupby is modelled as 'maximal runs of equal label'; clone-and-fit of the wrapped detector (user's object untouched, refit after re-tuning uses the new settings) is observed by the harness.",
     "3/C17",
 )
+CLAIMS["C14"] = (
+    "Lean 4 proofs that the transcribed validation equals the documented domain and that seeded binary segmentation is total on admissible schedules + correspondence over the full boundary grid",
+    "Theorems pelt/mw/binseg/capa/stat_ctor_iff and *_fit_iff (validation model <=> documented domain), sbs_runs_on_valid_config (non-empty candidate list and no empty argmax for every admissible schedule, incl. max_interval_length = 2m and n = 2m), mapOpt_ne_none in Skc/Props/C14.lean.",
+    "the validation model and the documented domain are both transcriptions (from code and from docstrings); the remaining algorithm models are total functions by construction, that the Python raises nothing else on valid configurations is checked on the boundary grid (6 k configurations quick) incl. finite +-1e308 data, four scorers, p in 1..3; MovingWindow's `level` is only exercised inside (0,1); PELT(penalty_scale=None) raising ValueError at fit is documented behaviour.",
+    "3/C14",
+)
+CLAIMS["C18"] = (
+    "Lean 4 proofs about the slice-wise affine placement model + correspondence with z taken from the implementation at mean 0 / variance 1",
+    "Theorems applySegs_placement (disjoint segments: inside segment g the value is m_g + sd_g * z, outside all segments it is z), changingSegs_disjoint (segments built from sorted changepoints are disjoint), linspaceRows_spec (ideal outlier rows strictly increasing from first to last row for 2 <= k <= n), validChanging_iff / validAnomalous_iff in Skc/Props/C18.lean, over any commutative ring and any z.",
+    "reproducibility of scipy's seeded draw is checked by calling twice, not modelled; NumPy computes the outlier rows in floating point (np.linspace(dtype=int)), which differs from the ideal floor in about 2% of (n,k): the driver replicates the float computation for exact correspondence on the full grid and the oracle demands k distinct rows from first to last within one row of the ideal spacing; overlapping anomalies / unsorted changepoints are outside the statement.",
+    "3/C18",
+)
